@@ -126,7 +126,9 @@ where
         let (start, end) = self.get_limits(layouter, input)?;
         let mut is_data: AssignedBit<F> = ng.assign_fixed(layouter, true)?;
 
-        let result = (0..M - A)
+        // The payload starts at a position in [0, M - A] (or at M if the vector is empty) and
+        // ends at a position in (M - A, M]: position M - A can be its start, never its end.
+        let result = (0..M - A + 1)
             .map(|i| {
                 let is_start = ng.is_equal_to_fixed(layouter, &start, F::from(i as u64))?;
                 is_data = ng.xor(layouter, &[is_data.clone(), is_start])?;
@@ -134,7 +136,7 @@ where
             })
             .collect::<Result<Vec<_>, Error>>()?;
 
-        let last_chunk = (M - A..M)
+        let last_chunk = (M - A + 1..M)
             .map(|i| {
                 let is_end = ng.is_equal_to_fixed(layouter, &end, F::from(i as u64))?;
                 is_data = ng.xor(layouter, &[is_data.clone(), is_end])?;
